@@ -9,6 +9,7 @@ import (
 	"encoding/hex"
 	"fmt"
 	"math/rand/v2"
+	"os"
 	"sort"
 	"strings"
 	"sync"
@@ -68,9 +69,11 @@ type Sim struct {
 	pending  map[string]*parkOp
 	counters map[string]int
 	stopped  bool
+	dead     []string
 	selCtr   map[string]uint64
 
 	hash      [32]byte
+	stepBuf   []string
 	trace     []string
 	traceAll  bool
 	traceDrop int
@@ -92,6 +95,9 @@ type Sim struct {
 }
 
 const traceKeep = 300
+
+// liveTrace streams every log line to stderr as it is produced (debugging crashes).
+var liveTrace = os.Getenv("VSIM_LIVE_TRACE") != ""
 
 func NewSim(t *testing.T, seed uint64, replay []int, replaying bool) *Sim {
 	s := &Sim{
@@ -140,7 +146,7 @@ func (s *Sim) Choose(kind string, n int) int {
 	return v
 }
 
-// ChooseW picks an index with probability proportional to its weight; the index is what is logged.
+// ChooseW picks an index with probability proportional to its weight (0 = never); the index is what is logged.
 func (s *Sim) ChooseW(kind string, weights []int) int {
 	n := len(weights)
 	if n <= 1 {
@@ -155,25 +161,29 @@ func (s *Sim) ChooseW(kind string, weights []int) int {
 				v = 0
 			}
 			v %= n
+			if weights[v] <= 0 {
+				v = 0 // a disabled alternative stays disabled in edited replays
+			}
 		}
 	} else {
 		total := 0
 		for _, w := range weights {
-			if w <= 0 {
-				w = 1
+			if w > 0 {
+				total += w
 			}
-			total += w
 		}
-		x := s.rng.IntN(total)
-		for i, w := range weights {
-			if w <= 0 {
-				w = 1
+		if total > 0 {
+			x := s.rng.IntN(total)
+			for i, w := range weights {
+				if w <= 0 {
+					continue
+				}
+				if x < w {
+					v = i
+					break
+				}
+				x -= w
 			}
-			if x < w {
-				v = i
-				break
-			}
-			x -= w
 		}
 	}
 	s.Choices = append(s.Choices, v)
@@ -195,31 +205,52 @@ func (s *Sim) Pct(kind string, p int) bool {
 }
 
 // Logf appends a line to the event log. It never draws from the PRNG or reads a clock.
+// Lines logged between two scheduler steps are sorted before they enter the hash: several
+// system goroutines may run (and log) concurrently within one step, and their relative order
+// is not a scheduling decision.
 func (s *Sim) Logf(f string, a ...any) {
 	line := fmt.Sprintf(f, a...)
+	if liveTrace {
+		fmt.Fprintln(os.Stderr, "T", line)
+	}
 	s.mu.Lock()
-	h := sha256.New()
-	h.Write(s.hash[:])
-	h.Write([]byte(line))
-	copy(s.hash[:], h.Sum(nil))
-	if s.traceAll || len(s.trace) < 2*traceKeep {
-		s.trace = append(s.trace, line)
-	} else {
-		// keep the head and a sliding tail
-		copy(s.trace[traceKeep:], s.trace[traceKeep+1:])
-		s.trace[len(s.trace)-1] = line
-		s.traceDrop++
+	if !s.stopped { // goroutines unwinding after the end of the run do not belong to the trace
+		s.stepBuf = append(s.stepBuf, line)
+	}
+	s.mu.Unlock()
+}
+
+// flushStep folds the lines of the finished step into the hash and the trace.
+func (s *Sim) flushStep() {
+	s.mu.Lock()
+	buf := s.stepBuf
+	s.stepBuf = nil
+	sort.Strings(buf)
+	for _, line := range buf {
+		h := sha256.New()
+		h.Write(s.hash[:])
+		h.Write([]byte(line))
+		copy(s.hash[:], h.Sum(nil))
+		if s.traceAll || len(s.trace) < 2*traceKeep {
+			s.trace = append(s.trace, line)
+		} else {
+			copy(s.trace[traceKeep:], s.trace[traceKeep+1:])
+			s.trace[len(s.trace)-1] = line
+			s.traceDrop++
+		}
 	}
 	s.mu.Unlock()
 }
 
 func (s *Sim) LogHash() string {
+	s.flushStep()
 	s.mu.Lock()
 	defer s.mu.Unlock()
 	return hex.EncodeToString(s.hash[:8])
 }
 
 func (s *Sim) Trace() []string {
+	s.flushStep()
 	s.mu.Lock()
 	defer s.mu.Unlock()
 	out := make([]string, 0, len(s.trace)+1)
@@ -267,11 +298,31 @@ func (s *Sim) Park(ctx context.Context, seam, label string) {
 	s.ParkID(Ident(ctx), seam, label)
 }
 
+// KillIdent releases every parked operation whose identity is prefix or starts with prefix+"." and turns later
+// parks of such identities into no-ops (a crashed node's goroutines must be able to unwind).
+func (s *Sim) KillIdent(prefix string) {
+	s.mu.Lock()
+	s.dead = append(s.dead, prefix)
+	for n, op := range s.pending {
+		if strings.HasPrefix(n, prefix+":") || strings.HasPrefix(n, prefix+".") {
+			close(op.release)
+			delete(s.pending, n)
+		}
+	}
+	s.mu.Unlock()
+}
+
 func (s *Sim) ParkID(id, seam, label string) {
 	s.mu.Lock()
 	if s.stopped {
 		s.mu.Unlock()
 		return
+	}
+	for _, d := range s.dead {
+		if id == d || strings.HasPrefix(id, d+".") {
+			s.mu.Unlock()
+			return
+		}
 	}
 	k := id + ":" + seam + ":" + label
 	s.counters[k]++
@@ -329,15 +380,21 @@ func (s *Sim) Pick(acts []Action) {
 	ws := make([]int, len(acts))
 	for i, a := range acts {
 		ws[i] = a.Weight
+		if ws[i] <= 0 {
+			ws[i] = 1
+		}
 	}
 	a := acts[s.ChooseW("step", ws)]
 	s.Steps++
-	s.Logf("%s", a.Name)
+	s.flushStep()
+	s.Logf("[%d] %s", s.Steps, a.Name)
+	s.flushStep()
 	a.Do()
 }
 
 // Stop releases every parked goroutine and turns later parks into no-ops (shutdown).
 func (s *Sim) Stop() {
+	s.flushStep()
 	s.mu.Lock()
 	s.stopped = true
 	for n, op := range s.pending {
@@ -377,9 +434,25 @@ func (s *Sim) Attach() {
 // AttachSelect installs only the select pre-pass (statement and lock yields pass through).
 func (s *Sim) AttachSelect() { vsel.OrderFn = s.SelectOrder }
 
+// AttachCases parks a goroutine at the start of every instrumented select case body, after
+// handing the received value to observe (may be nil). Only goroutines whose context carries an
+// identity are parked.
+func (s *Sim) AttachCases(observe func(ctx context.Context, site string, v any)) {
+	vsel.CaseFn = func(ctx context.Context, site string, v any) {
+		if Ident(ctx) == "" {
+			return
+		}
+		if observe != nil && v != nil {
+			observe(ctx, site, v)
+		}
+		s.Park(ctx, "case", site)
+	}
+}
+
 func Detach() {
 	vsel.OrderFn = nil
 	vsel.YieldFn = nil
+	vsel.CaseFn = nil
 }
 
 // Bubble runs body as the root goroutine of a synctest bubble. Leftover goroutines that are
